@@ -210,4 +210,34 @@ theorem Slice_to_builder_eq (H) (σ : State) (wf : WF σ) (self : Nat) (h : σ.h
   · have : ((σ.obj self).kind != -1) = true := by simpa using c0
     simp [c0, this, Py.Heap.result]
 
+/-! ## loads and stores (session 5): the regenerated mutating methods are the model's own transitions -/
+
+/-- `Builder.store_ref(ref)` = the model's `storeRef`: raises exactly when the builder's list already has 4 entries, otherwise the
+builder's OWN list container gets the very object `ref` appended in place; nothing else changes. -/
+theorem Builder_store_ref_eq (H) (σ : State) (wf : WF σ) (self ref : Nat) (h : σ.has self .builder = true) (hc : σ.has ref .cell = true) :
+    Py.Heap.resultUnit σ (Builder_store_ref H σ self ref) = step H σ (.storeRef self ref) := by
+  obtain ⟨hi, ht⟩ := has_lt h
+  have ho : (σ.obj self).off = 0 := wf.off0 self hi (by rw [ht]; decide)
+  simp only [step, h, hc, Bool.and_self, if_true, Builder_store_ref, State.refsOf, ho, List.drop_zero, decide_eq_true_eq]
+  by_cases hl : (σ.refBuf (σ.obj self).refsId).length ≥ 4
+  · simp [hl, Py.Heap.resultUnit]
+  · simp [hl, Py.Heap.resultUnit, Py.Heap.appendRef]
+
+/-- `Slice.load_ref()` = the model's `loadRef`: IndexError exactly when no reference remains, otherwise `ref_offset` is bumped and the
+result is the very Cell object stored in the list (no copy); no container changes. -/
+theorem Slice_load_ref_eq (H) (σ : State) (self : Nat) (h : σ.has self .slice = true) :
+    Py.Heap.result σ (Slice_load_ref H σ self) = step H σ (.loadRef self) := by
+  simp only [step, h, if_true, Slice_load_ref, State.refsOf, Py.Heap.refAt?, Py.Heap.setOff]
+  cases hd : (σ.refBuf (σ.obj self).refsId).drop (σ.obj self).off with
+  | nil =>
+    have : (σ.refBuf (σ.obj self).refsId)[(σ.obj self).off]? = none := by
+      have := congrArg List.head? hd
+      simpa [List.head?_drop] using this
+    simp [this, Py.Heap.result]
+  | cons c cs =>
+    have : (σ.refBuf (σ.obj self).refsId)[(σ.obj self).off]? = some c := by
+      have := congrArg List.head? hd
+      simpa [List.head?_drop] using this
+    simp [this, Py.Heap.result]
+
 end TonVerif.Proofs.SrcHeap
